@@ -174,6 +174,19 @@ func (s *ogServer) influx(db, q string) (string, error) {
 
 // remoteWrite sends the sample set through the Prometheus remote-write endpoint.
 func (s *ogServer) remoteWrite(db string, set *sampleSet) error {
+	// "can't map point to shard" is answered now and then while the shard group of a new database is
+	// being created under load: the write is repeated (nothing was written)
+	var err error
+	for try := 0; try < 8; try++ {
+		if err = s.remoteWriteOnce(db, set); err == nil || !strings.Contains(err.Error(), "can't map point to shard") {
+			return err
+		}
+		time.Sleep(250 * time.Millisecond)
+	}
+	return err
+}
+
+func (s *ogServer) remoteWriteOnce(db string, set *sampleSet) error {
 	var req prompb.WriteRequest
 	for _, sr := range set.series {
 		ts := prompb.TimeSeries{}
